@@ -42,6 +42,34 @@ theorem get_valid (g : Gen) (hv : g.Valid) (n : Nat) : (g.get n).2.Valid := Gen.
 
 example : ((Gen.lc (lcInit 5 1 8)).get 100).2.Valid := get_valid _ (by decide) _
 
+/-! ## the regenerated tables -/
+
+/-- randmt.c `default_state[]`: `N` entries, each a 32-bit word. -/
+theorem default_state_ok :
+    Tabs.defaultState.toList.length = Tabs.mtN ∧ ∀ w ∈ Tabs.defaultState.toList, w < 2 ^ 32 := by decide +kernel
+
+/-- randlc2s.c `__gmp_rand_lc_scheme[]`: every row has `m2exp ≥ 2`, a multiplier `≡ 5 (mod 8)` inside `[0, 2^m2exp)`
+    and an odd addend (so each scheme has the full period `2^m2exp`), and the rows are sorted by `m2exp` (the
+    selection takes the first row with `m2exp / 2 ≥ size`). -/
+theorem lc_scheme_ok :
+    (∀ r ∈ Tabs.lcScheme, 2 ≤ r.1 ∧ r.2.1 % 8 = 5 ∧ r.2.2 % 2 = 1 ∧ r.2.1 < 2 ^ r.1) ∧
+    (Tabs.lcScheme.map (·.1)).Pairwise (· < ·) := by decide +kernel
+
+/-- `gmp_randinit_lc_2exp_size (state, size)`: when it succeeds the generator is valid and delivers at least `size`
+    bits per step; it fails exactly when no row is large enough. -/
+theorem lc_size_valid (size : Nat) (s : LcState) (h : lcInitSize size = some s) :
+    (Gen.lc s).Valid ∧ size ≤ s.m2exp / 2 := by
+  unfold lcInitSize lcSchemeFind at h
+  simp only [Option.map_eq_some_iff] at h
+  obtain ⟨r, hr, rfl⟩ := h
+  have hmem := List.mem_of_find?_eq_some hr
+  have hp := List.find?_some hr
+  have := (lc_scheme_ok.1 r hmem).1
+  exact ⟨this, by simpa [lcInit] using hp⟩
+
+example : (lcInitSize 128).map (·.m2exp) = some 256 ∧ lcInitSize 129 = none ∧ (lcInitSize 17).map (·.m2exp) = some 34 := by
+  decide +kernel
+
 /-! ## urandomm: values in `[0, n-1]` -/
 
 /-- `mpz_urandomm (rop, state, n)`, `n ≠ 0`: every returned value is below `|n|` (exit condition of the
@@ -192,6 +220,25 @@ theorem lc_outputs_high_half (s : LcState) (hm : 2 ≤ s.m2exp) (n j : Nat) :
   refine ⟨randgetLc_testBit s n hm j, by omega, ?_, lcX_succ s, rfl⟩
   have := Nat.mod_lt j (show 0 < s.m2exp / 2 by omega)
   omega
+
+/-- Documentation of the repaired finding (repo commit 78bdb63): before the repair `lc` discarded only `m/2` low bits, so
+    for odd `m` it delivered `(m+1)/2` bits per step while `randget_lc` places the chunks `m/2` bits apart. -/
+def lcStepOld (s : LcState) : Nat × LcState :=
+  let x := (s.a * s.seed + s.c) % 2 ^ s.m2exp
+  (x >>> (s.m2exp / 2), { s with seed := x })
+
+/-- one `mpz_urandomb (r, st, 66)` of the unrepaired code with `m2exp = 67`: two 33-bit chunks; the surplus bit of the first
+    is or-ed into the second ("bogus", randlc2x.c) and the surplus bit of the second is stored at bit 66. -/
+def oldDraw66 (s0 : LcState) : Nat × LcState :=
+  let p1 := lcStepOld s0
+  let p2 := lcStepOld p1.2
+  (placeChunk (placeChunk 0 0 1 p1.1 false) 33 1 p2.1 (decide (33 % 64 + 33 % 64 > 64)), p2.2)
+
+-- seed 12345: the first two draws are the values observed on the unrepaired library; the second is not below 2^66
+example :
+    let s0 := lcSeed (lcInit 0x5851f42d4c957f2d5851f42d4c957f2d 1 67) 12345
+    (oldDraw66 s0).1 = 0x28239508a0403ee39 ∧ (oldDraw66 (oldDraw66 s0).2).1 = 0x43af2be668439aad9 ∧
+    2 ^ 66 ≤ (oldDraw66 (oldDraw66 s0).2).1 := by decide +kernel
 
 /-- the state after an `n`-bit request: `⌈n / (m/2)⌉` steps of the recurrence, whatever the request sizes. -/
 theorem lc_get_state (s : LcState) (hm : 2 ≤ s.m2exp) (n : Nat) :
